@@ -435,6 +435,14 @@ def run_dtype(ctx):
     elif not close(np.asarray(p32, dtype=float), want, 1e-3, 1e-6):
         ctx.fail('dtype_invariance', dict(sig, what='float32_differs'), f'float32 evaluations give p {np.asarray(p32).tolist()}, '
                  f'float64 {np.asarray(p64).tolist()}', wit())
+    # ... nor on the width the VARIANCES are stored in (variances of 1e-12 ... 1e-8 are far above what float32 can hold)
+    ok3, pv32 = ctx.guarded('dtype_invariance', dict(sig, dims='float32_variances'), IU.t_test_0, ev64.copy(),
+                            var.astype(np.float32), dof, data=wit)
+    if ok3:
+        ctx.case('dtype_invariance', dict(sig, dims='float32_variances'))
+        if not close(np.asarray(pv32, dtype=float), want, 1e-3, 1e-6):
+            ctx.fail('dtype_invariance', dict(sig, what='float32_variances_differ'), f'float32 variances give p '
+                     f'{np.asarray(pv32).tolist()}, float64 {np.asarray(p64).tolist()}', wit())
 
 
 def run_extreme_bootstrap(ctx):
